@@ -2420,7 +2420,9 @@ def probe_known():
 
 # ---- field normalisation at construction (__post_init__) ---------------------------------------------
 
-class _DeclaredHashableMapping:
+from collections.abc import Mapping as _abc_Mapping  # noqa: E402
+
+class _DeclaredHashableMapping(_abc_Mapping):
     """a Mapping that DECLARES __hash__ (so isinstance(m, Hashable) holds) while hashing raises —
     like types.MappingProxyType on CPython 3.12: only an actual hash() call tells"""
     def __init__(self, d):
@@ -2444,7 +2446,6 @@ def _mapping_kinds():
     import types
 
     from immutabledict import immutabledict
-    collections.abc.Mapping.register(_DeclaredHashableMapping)
     return {
         "dict": lambda d: d,
         "ordered": lambda d: collections.OrderedDict(d),
